@@ -342,15 +342,99 @@ func linConsts(repo string, add func(string, int64, string)) error {
 	// OpenFile: where is the handle finished (O_APPEND seek, O_TRUNC truncate)?
 	//   0: inside the locked section of the lookup/creation (m.mu held until OpenFile returns)
 	//   1: after that section has ended (OpenFile holds no lock when it calls Seek/Truncate)
+	// and HOW (lin_openfile_finish_one_hold): handle operations do not take m.mu, only the file's
+	// mutex, so for them the two steps are one step only if they share one hold of that mutex
+	//   1: OpenFile calls ONE method of mem.File that takes the file's mutex once (released by defer)
+	//      and, under it, stores the handle's offset and assigns the file's data; no Seek / Truncate
+	//      call in OpenFile
+	//   0: OpenFile (or a helper of MemMapFs) calls Seek and Truncate: two holds of the file's mutex
+	oneHoldDoc := "memmap.go OpenFile + mem/file.go: 1 iff the O_APPEND seek and the O_TRUNC truncation happen under ONE hold of the file's mutex (a single mem.File method called by OpenFile), 0 iff they are separate calls of Seek and Truncate (two file-mutex sections)"
 	{
 		fin := methodCallPos(of, "Truncate", "Seek")
 		trunc := methodCallPos(of, "Truncate")
 		ls := lockShapeOf(of)
+		// methods of mem.File called by OpenFile, other than Seek / Truncate / Close, that lock
+		mfile, err := parseSrc(repo, "mem/file.go")
+		if err != nil {
+			return err
+		}
+		type helperCall struct {
+			fd  *ast.FuncDecl
+			pos token.Pos
+		}
+		var helpers []helperCall
+		ast.Inspect(of, func(x ast.Node) bool {
+			if ce, ok := x.(*ast.CallExpr); ok {
+				if se, ok := ce.Fun.(*ast.SelectorExpr); ok {
+					switch se.Sel.Name {
+					case "Seek", "Truncate", "Close":
+					default:
+						if h := mfile.fn("File", se.Sel.Name); h != nil && m.fn("MemMapFs", se.Sel.Name) == nil && lockShapeOf(h).acq > 0 {
+							helpers = append(helpers, helperCall{h, ce.Pos()})
+						}
+					}
+				}
+			}
+			return true
+		})
+		// one hold: exactly one acquisition, released by defer only; after it a store to the handle's
+		// offset (atomic Store/Add on <x>.at) and an assignment to <x>.data; no call of a locking
+		// method of mem.File (Seek, Truncate, Name, ...) inside
+		oneHold := func(h *ast.FuncDecl) bool {
+			hs := lockShapeOf(h)
+			if hs.acq != 1 || hs.deferred != 1 || hs.rel != 0 {
+				return false
+			}
+			storeAt, setData, calls := false, false, false
+			ast.Inspect(h, func(x ast.Node) bool {
+				switch y := x.(type) {
+				case *ast.CallExpr:
+					if se, ok := y.Fun.(*ast.SelectorExpr); ok {
+						if (se.Sel.Name == "StoreInt64" || se.Sel.Name == "AddInt64") && y.Pos() > hs.first {
+							ast.Inspect(y, func(z ast.Node) bool {
+								if a, ok := z.(*ast.SelectorExpr); ok && a.Sel.Name == "at" {
+									storeAt = true
+								}
+								return true
+							})
+						}
+						if g := mfile.fn("File", se.Sel.Name); g != nil && lockShapeOf(g).acq > 0 {
+							calls = true
+						}
+						if se.Sel.Name == "Name" || se.Sel.Name == "Seek" || se.Sel.Name == "Truncate" {
+							calls = true
+						}
+					}
+				case *ast.AssignStmt:
+					if len(y.Lhs) == 1 && y.Pos() > hs.first {
+						if a, ok := y.Lhs[0].(*ast.SelectorExpr); ok && a.Sel.Name == "data" {
+							setData = true
+						}
+					}
+				}
+				return true
+			})
+			return storeAt && setData && !calls
+		}
 		switch {
+		case len(helpers) > 0:
+			if len(helpers) != 1 || len(fin) > 0 {
+				return fmt.Errorf("memmap.go: OpenFile: it calls a locking method of mem.File besides Seek/Truncate (%d such calls, %d Seek/Truncate calls): shape not recognised; update Model/Lin.v", len(helpers), len(fin))
+			}
+			if !oneHold(helpers[0].fd) {
+				return fmt.Errorf("mem/file.go: File.%s (called by OpenFile): not one deferred hold of the file's mutex with the offset store and the data assignment under it; update Model/Lin.v", helpers[0].fd.Name.Name)
+			}
+			if !heldUntilReturnFrom(of, helpers[0].pos) {
+				return fmt.Errorf("memmap.go: OpenFile: File.%s is not called inside a section held until OpenFile returns; update Model/Lin.v", helpers[0].fd.Name.Name)
+			}
+			add("lin_openfile_finish_outside", 0,
+				"memmap.go OpenFile: 1 iff Seek (O_APPEND) / Truncate (O_TRUNC) run after the locked lookup/creation section has ended")
+			add("lin_openfile_finish_one_hold", 1, oneHoldDoc)
 		case len(trunc) > 0 && ls.acq == 0 && ls.rel == 0 && ls.deferred == 0:
 			// the sections are inside the methods it calls: the handle is finished outside
 			add("lin_openfile_finish_outside", 1,
 				"memmap.go OpenFile: 1 iff Seek (O_APPEND) / Truncate (O_TRUNC) run after the locked lookup/creation section has ended")
+			add("lin_openfile_finish_one_hold", 0, oneHoldDoc)
 		case len(trunc) > 0:
 			first := fin[0]
 			for _, p := range fin {
@@ -363,6 +447,7 @@ func linConsts(repo string, add func(string, int64, string)) error {
 			}
 			add("lin_openfile_finish_outside", 0,
 				"memmap.go OpenFile: 1 iff Seek (O_APPEND) / Truncate (O_TRUNC) run after the locked lookup/creation section has ended")
+			add("lin_openfile_finish_one_hold", 0, oneHoldDoc)
 		default:
 			// no Truncate in OpenFile itself: every MemMapFs method it calls that truncates must do so
 			// inside a section held until that method returns
@@ -387,6 +472,7 @@ func linConsts(repo string, add func(string, int64, string)) error {
 			}
 			add("lin_openfile_finish_outside", 0,
 				"memmap.go OpenFile: 1 iff Seek (O_APPEND) / Truncate (O_TRUNC) run after the locked lookup/creation section has ended")
+			add("lin_openfile_finish_one_hold", 0, oneHoldDoc)
 		}
 	}
 	// mem/file.go Readdirnames: where are the entries' names read?
